@@ -6,6 +6,7 @@ package main
 // the region in which returned interrupts can be caught.
 
 import (
+	"fmt"
 	"go/ast"
 	"go/token"
 	"go/types"
@@ -68,9 +69,43 @@ type actxPkg struct {
 	hasErrRet  bool
 	boolArgs   map[*types.Func]map[int]map[string]bool // param index → constant values passed by non-root callers ("true","false","?")
 	boolArgsRt map[*types.Func]map[int]map[string]bool // ... passed by root-like callers
+	ctxSorted  []*types.Var
+	dynCalls   map[*types.Func]bool // calls a function value (closure parameter, callback field): unknown code of the package may run
+}
+
+// actxIsDynCall: a call through a function-typed variable, parameter or field
+// (not a declared function, method, conversion or builtin).
+func actxIsDynCall(info *types.Info, c *ast.CallExpr) bool {
+	var id *ast.Ident
+	switch f := ast.Unparen(c.Fun).(type) {
+	case *ast.Ident:
+		id = f
+	case *ast.SelectorExpr:
+		id = f.Sel
+	default:
+		return false
+	}
+	v, ok := info.Uses[id].(*types.Var)
+	if !ok {
+		return false
+	}
+	_, isSig := v.Type().Underlying().(*types.Signature)
+	return isSig
 }
 
 var actxPkgCache = map[string]*actxPkg{}
+
+// actxPosKey: a position as "file:offset" — comparable across runs (token.Pos
+// values depend on the order in which the files happened to be parsed).
+func actxPosKey(c *Ctx, p token.Pos) string {
+	if !p.IsValid() {
+		return "~"
+	}
+	pp := c.Fset.Position(p)
+	return fmt.Sprintf("%s:%09d", pp.Filename, pp.Offset)
+}
+
+func actxPosLess(c *Ctx, a, b token.Pos) bool { return actxPosKey(c, a) < actxPosKey(c, b) }
 
 func actxModel(c *Ctx, rel string) *actxPkg {
 	key := c.RepoDir + "|" + rel
@@ -87,6 +122,7 @@ func actxModel(c *Ctx, rel string) *actxPkg {
 		paramSet: map[*types.Func]map[*types.Var]int{}, paramExact: map[*types.Func]map[*types.Var]bool{},
 		catchable: map[*types.Func]bool{},
 		boolArgs:  map[*types.Func]map[int]map[string]bool{}, boolArgsRt: map[*types.Func]map[int]map[string]bool{},
+		dynCalls: map[*types.Func]bool{},
 	}
 	// struct fields declared in this package
 	scope := p.Types.Scope()
@@ -115,7 +151,7 @@ func actxModel(c *Ctx, rel string) *actxPkg {
 		m.decls[fn] = fd
 		m.order = append(m.order, fn)
 	}
-	sort.Slice(m.order, func(i, j int) bool { return m.order[i].Pos() < m.order[j].Pos() })
+	sort.Slice(m.order, func(i, j int) bool { return actxPosLess(c, m.order[i].Pos(), m.order[j].Pos()) })
 	for _, fn := range m.order {
 		m.scanFunc(fn)
 	}
@@ -255,6 +291,8 @@ func (m *actxPkg) scanFunc(fn *types.Func) {
 					seenCallee[g] = true
 					m.callees[fn] = append(m.callees[fn], g)
 				}
+			} else if actxIsDynCall(m.info, x) {
+				m.dynCalls[fn] = true
 			}
 		}
 		return true
@@ -504,7 +542,7 @@ func (m *actxPkg) computeTouch() {
 	for f := range m.ctx {
 		t := map[*types.Func]bool{}
 		for _, fn := range m.order {
-			if m.reads[fn][f] {
+			if m.reads[fn][f] || m.dynCalls[fn] {
 				t[fn] = true
 			}
 			for _, w := range m.writes[fn] {
@@ -556,7 +594,7 @@ func (m *actxPkg) writesCtxDirect(fn *types.Func) bool {
 func (m *actxPkg) computeInlinable() {
 	cand := map[*types.Func]bool{}
 	for _, fn := range m.order {
-		if m.writesCtxDirect(fn) {
+		if m.writesCtxDirect(fn) && !m.dynCalls[fn] {
 			cand[fn] = true
 		}
 	}
@@ -806,11 +844,21 @@ func (m *actxPkg) fieldName(f *types.Var) string {
 }
 
 func (m *actxPkg) sortedCtx() []*types.Var {
+	if m.ctxSorted != nil && len(m.ctxSorted) == len(m.ctx) {
+		return m.ctxSorted
+	}
 	var out []*types.Var
 	for f := range m.ctx {
 		out = append(out, f)
 	}
-	sort.Slice(out, func(i, j int) bool { return m.fieldName(out[i]) < m.fieldName(out[j]) })
+	sort.Slice(out, func(i, j int) bool {
+		a, b := m.fieldName(out[i]), m.fieldName(out[j])
+		if a != b {
+			return a < b
+		}
+		return actxPosLess(m.c, out[i].Pos(), out[j].Pos())
+	})
+	m.ctxSorted = out
 	return out
 }
 
